@@ -145,7 +145,7 @@ func (c *c21Case) blkAt(i int) blk {
 func genC21(rt *rapid.T) c21Case {
 	c := c21Case{
 		NtN:   rapid.Bool().Draw(rt, "ntn"),
-		Limit: rapid.SampledFrom([]int{0, 1, 2, 5, 75, 100}).Draw(rt, "limit"),
+		Limit: rapid.SampledFrom([]int{0, 1, 2, 10, 79, 80, 81, 82, 100}).Draw(rt, "limit"),
 		Raw:   rapid.Bool().Draw(rt, "raw"),
 		Seed:  rapid.Uint64().Draw(rt, "seed"),
 	}
@@ -578,10 +578,11 @@ func TestC21(t *testing.T) {
 	defer protocol.SetVerifTracer(nil)
 	defer pipeline.SetVerifStageHook(nil)
 	rec := evi.New(t, "C21", evi.Exploration,
-		"one Sync per case on a real NtC or NtN connection against a scripted raw chain-sync server: history of 1..400 replies, each RollForward (a real block / its header, fixtures of every era and salted variants) or RollBackward (random point or origin), optionally preceded by AwaitReply, each with its own tip; pipeline limit from {0,1,2,5,75,100}; raw or decoded callback; NtC optionally through a pipeline.BlockPipeline (1..4 decode workers, buffer 1..1000; optionally one block held inside the decode worker until the next rollback callback fires); generated callback delays, server pauses, reply grouping into segments, read fragmentation; Stop() after the whole history or when a generated callback starts (then the server keeps answering outstanding requests). The same client object first optionally runs GetCurrentTip / a Sync answered IntersectNotFound / GetAvailableBlockRange, may be asked for the current tip by a second goroutine mid-sync, may have a callback return an error, and after a Stop() that ended with MsgDone is started again for a second short history; rollback and intersect points and tips include slot/block number 0, 1, 2^63, 2^64-1 with all-zero/all-0xff hashes; every value handed to a callback is retained (or overwritten by the callback) and re-checked at the end. 10 fixed histories of these classes run first at every seed. Non-trivial: >= 3 replies. Distinct by (mode, limit, callback kind, pipeline parameters, history shape, stop point, pre-steps).")
+		"one Sync per case on a real NtC or NtN connection against a scripted raw chain-sync server: history of 1..400 replies, each RollForward (a real block / its header, fixtures of every era and salted variants) or RollBackward (random point or origin), optionally preceded by AwaitReply, each with its own tip; pipeline limit from {0 (=75),1,2,10,79,80,81,82,100} (around the 80-slot send queue); a sweep that calls Stop() after / in the middle of a pipeline refill with a harness-controlled server (c21_refill_test.go); raw or decoded callback; NtC optionally through a pipeline.BlockPipeline (1..4 decode workers, buffer 1..1000; optionally one block held inside the decode worker until the next rollback callback fires); generated callback delays, server pauses, reply grouping into segments, read fragmentation; Stop() after the whole history or when a generated callback starts (then the server keeps answering outstanding requests). The same client object first optionally runs GetCurrentTip / a Sync answered IntersectNotFound / GetAvailableBlockRange, may be asked for the current tip by a second goroutine mid-sync, may have a callback return an error, and after a Stop() that ended with MsgDone is started again for a second short history; rollback and intersect points and tips include slot/block number 0, 1, 2^63, 2^64-1 with all-zero/all-0xff hashes; every value handed to a callback is retained (or overwritten by the callback) and re-checked at the end. 10 fixed histories of these classes run first at every seed. Non-trivial: >= 3 replies. Distinct by (mode, limit, callback kind, pipeline parameters, history shape, stop point, pre-steps).")
 	defer rec.Finish()
 	rec.Assume(
-		"pipeline limit 0 is 'unset' and means the documented default 75 (chainsync.NewClient)",
+		"pipeline limit 0 is 'unset' and means the documented default 75 (chainsync.NewClient); limits above 100 are rejected by the library's configuration validation and not generated",
+		"Stop() is never called while a refill has left the send queue exactly full (limit - first segment == 80): the unchanged tree deadlocks there (listed known finding for limit 100); generated cases with 82 <= limit < 100 end by closing the connection",
 		"the wire-level count (#RequestNext received by the server - #RollForward/RollBackward sent by the server) bounds the client's own count of unanswered requests from below, so exceeding the limit on the wire implies exceeding it in the client",
 		"Stop() is called from a goroutine other than the callback (the callback API offers ErrStopSyncProcess for the other case); after Stop the server keeps answering every request it received",
 		"bounded liveness: no progress for 25 s = stall; Stop() not returning for 15 s (its own timers are 250 ms and 5 s) = hang; 3 s after Stop() returned with nothing owed by the server, neither MsgDone nor the end of the connection = conversation left open",
@@ -597,6 +598,10 @@ func TestC21(t *testing.T) {
 			fmt.Printf("fixed C21 case %q failed\n", fc.name)
 			return
 		}
+	}
+
+	if !refillSweep(t, rec) {
+		return
 	}
 
 	rec.Check(func(rt *rapid.T) {
@@ -667,6 +672,14 @@ func runC21(rt tb, rec *evi.Recorder, cs *c21Case, pc, ps rawpeer.Plan) {
 	// after a few confirmations per process such cases end by closing the
 	// connection instead (delivery and the pipelining bound are still checked).
 	skipStop := stopHangExhausted(rec, stopHangKey(mode, lim))
+	if cs.Limit >= 82 && cs.Limit < 100 {
+		// On the unchanged tree Stop() deadlocks whenever a refill has left the
+		// send queue exactly full (limit - first segment == 80 with a first
+		// segment of >= 2 requests; limit 100 is the listed known finding). The
+		// generated histories cannot control that, so for these limits Stop() is
+		// only exercised by the refill sweep, which excludes that state.
+		skipStop = true
+	}
 	if skipStop {
 		cs.StopAfter = -1
 	}
